@@ -27,3 +27,12 @@ Lemma abi_monitor_detects ty v d bz r rc :
 Proof.
   intros D N. cbn [case_monitor]. rewrite D, N. cbn. left. reflexivity.
 Qed.
+
+(** a "raw" observation in which the value decoded from an accepted input
+    re-encodes and decodes to itself passes the monitor — the conclusion of
+    [decode_normalises] (Proofs/AbiNormal.v) *)
+Lemma abiraw_monitor_sound ty inp d r : case_monitor (CAbiRaw ty inp 0 d 0 r 0 d) = [].
+Proof.
+  cbn [case_monitor]. destruct (Nat.eqb 0 0 && value_in_domain (schema_of ty) d); [|reflexivity].
+  rewrite fvals_eqb_refl. reflexivity.
+Qed.
